@@ -61,6 +61,8 @@ def pureQueries : List String :=
    "andcard", "orcard", "isect", "wf", "size", "ser", "rd", "wrfail", "wrfailall", "rdsplit", "trunc", "chkeq", "dump", "dig", "kern", "kernwf", "popcnt", "dense", "densechk", "safe", "zdetach", "zsame", "frz", "frzsmall", "frzwfail", "fchk", "fgc",
    "sermany64", "sched", "concdec", "concagg", "bplanes", "hasnext", "peek?", "peek!", "iterate", "values", "backward", "unset", "ranges", "l2lazy", "l2dense"]
 
+def aggOps : List String := ["fastor", "fastand", "heapor", "heapxor", "paror", "parand", "parheapor", "andany"]
+
 partial def loop (script go : IO.FS.Stream) (st : St) (lineNo : Nat) (fails : Nat) : IO Nat := do
   let l ← script.getLine
   if l.isEmpty then return fails
@@ -79,7 +81,11 @@ partial def loop (script go : IO.FS.Stream) (st : St) (lineNo : Nat) (fails : Na
       IO.println s!"MISMATCH line={lineNo} cmd=[{shown}] expected=[{exp}] got=[{got}]"
       -- a disagreement on a pure query leaves the model state in step with the Go state: keep going;
       -- after any other disagreement the two states may have diverged: stop
-      if pureQueries.contains (cmd.headD "") then loop script go st' (lineNo + 1) (fails + 1)
+      -- an aggregate whose RESULT digest agrees (the disagreement is about validity, operands or the caller's slice) leaves
+      -- the model state in step as well
+      let firstTok (s : String) : String := (s.splitOn " ").headD ""
+      let inSync := aggOps.contains (cmd.headD "") && firstTok exp == firstTok got && !got.startsWith "panic"
+      if pureQueries.contains (cmd.headD "") || inSync then loop script go st' (lineNo + 1) (fails + 1)
       else return fails + 1
 
 def main (args : List String) : IO UInt32 := do
